@@ -33,6 +33,8 @@ def plan(tier, seed):
     nbin = 160 if tier == "quick" else 1600
     for i in range(16):
         specs.append(("binary", nbin // 16, i))
+    for i in range(8):
+        specs.append(("binary-multi", (80 if tier == "quick" else 800) // 8, i))
     return specs
 
 
@@ -160,6 +162,9 @@ def run_shard(ctx, spec):
     elif kind == "binary":
         _, count, idx = spec
         _binary(ctx, count, idx)
+    elif kind == "binary-multi":
+        _, count, idx = spec
+        _binary_multi(ctx, count, idx)
 
 
 def _binary(ctx, count, idx):
@@ -236,6 +241,60 @@ def _binary(ctx, count, idx):
         ctx.sample({"binary_spec": s.replace(work, "<tmp>"), "delivered": got}, limit=2)
 
 
+def _binary_multi(ctx, count, idx):
+    """Several -G options in one run: every generator must receive the common request followed by exactly its own arguments."""
+    rng = ctx.rng("binary-multi/%d" % idx)
+    tmp = ctx.tmpdir()
+    work = os.path.join(tmp, "m%d" % idx)
+    os.makedirs(work, exist_ok=True)
+    src = os.path.join(work, "a.slice")
+    with open(src, "w") as f:
+        f.write("module M\nstruct S { a: int32 }\n")
+    schema = wire.parse_schema(os.path.join(build.repo(), "slice", "Compiler"))
+    for n in range(count):
+        log = os.path.join(work, "log%d" % n)
+        os.makedirs(log)
+        argv = []
+        want = []
+        for g in range(rng.randint(2, 4)):
+            name = "gen-ok-%d_%d" % (n, g)
+            gen = os.path.join(work, name)
+            os.symlink(ctx.paths["fakegen"], gen)
+            with open(os.path.join(log, name + ".reply"), "wb") as f:
+                f.write(wire.enc_reply([]))
+            args = [(_rand_component(rng), _rand_component(rng, True)) for _ in range(rng.choice([0, 1, 2, 3, 5]))]
+            argv += [rng.choice(["-G", "--generator"]), genspec.render(gen, args, rng)]
+            want.append((name, args))
+        r = ctx.run_slicec(argv + [src], cwd=work, env={"FAKEGEN_LOG": log})
+        ctx.note_case(("binmulti", tuple(argv)))
+        ctx.stats["binary_multi_runs"] += 1
+        replay = {"kind": "binary", "argv": [a.replace(work, "<tmp>") for a in argv] + ["a.slice"], "observed": r.brief()}
+        if r.crashed() or r.status != 0:
+            ctx.violate("binary-multi-failed", "run with %d healthy generators: %s, exit %r" % (len(want), r.crashed(), r.status), replay)
+            continue
+        prefixes = set()
+        for name, args in want:
+            cap = [x for x in os.listdir(log) if x.startswith(name + ".") and x.endswith(".stdin")]
+            if len(cap) != 1:
+                ctx.violate("binary-multi-not-started", "generator %s: %d captured requests" % (name, len(cap)), replay)
+                break
+            with open(os.path.join(log, cap[0]), "rb") as f:
+                data = f.read()
+            try:
+                req = wire.decode_request(schema, data)
+            except wire.WireError as e:
+                ctx.violate("binary-multi-undecodable", "request received by %s does not decode completely: %s" % (name, e), replay)
+                break
+            prefixes.add(data[:req["_end_referenceFiles"]])
+            ctx.stats["binary_multi_generators_checked"] += 1
+            if [tuple(x) for x in req["args"]] != args:
+                ctx.violate("binary-multi-args-differ", "generator %s received %r, its specification says %r" % (name, req["args"], args), replay)
+                break
+        else:
+            if len(prefixes) != 1:
+                ctx.violate("binary-multi-requests-differ", "generators of one run received different requests", replay)
+
+
 def main(tier, seed):
     paths = build.build("release", ("slicec", "vh"))
     run = core.run_shards(__name__, PROP, tier, seed, paths, plan(tier, seed))
@@ -246,7 +305,7 @@ def main(tier, seed):
               "(c) 1-4 repeated -G options; (d) real binary runs with a capturing generator. distinct_nontrivial = distinct "
               "non-empty specification strings / argv vectors"),
         required={"alphabet_cases": 3000, "roundtrip_pairs": 100, "expected_reject": 100, "expected_accept": 100,
-                  "binary_args_checked": 20, "binary_rejects": 5},
+                  "binary_args_checked": 20, "binary_rejects": 5, "binary_multi_generators_checked": 100},
         assumptions=["reference parser in vlib/genspec.py encodes the statement of C19; whitespace = Unicode White_Space, "
                      "only ASCII padding is generated",
                      "components ending in a backslash are not generated (the syntax cannot express them)"],
